@@ -23,6 +23,7 @@ import common
 from common import close, close_list, err_kind
 from props import c20_calls as calls
 from props import c20_sig as sig
+from props import c20_tr as tr
 
 # Exact number transport (common.enc / common.dec) with fast paths: the long-run stream moves hundreds of
 # thousands of samples.  Same encodings as common.enc (int, or "p/q" in lowest terms; floats at their exact
@@ -91,7 +92,9 @@ RULE = ("structured random cases per tool (sizes/lags 1..9 + larger, all clip li
         "name, alias, attribute and item access and through the dictionary default call, amdf(lag, size) positional / keyword / swapped "
         "keywords; unwrap: steps below and above 2*pi with jumps placed in (step/2, pi], (pi, step/2] and beyond, binary floats right "
         "at pi (Float twin of the model); clip: given limits on both sides of the default of the other one; exhaustive grid of "
-        "shapes x parameter values on fixed inputs + random ones")
+        "shapes x parameter values on fixed inputs + random ones.  SOURCE TIE (no cases): before the build the bodies of clip, zcross, "
+        "unwrap, accumulate.func, maverage.deque, amdf, envelope.abs/.squared are re-translated from the source text into "
+        "lean/ALV/Gen/C20Src.lean; the translator self test edits the source text in 19 semantic and 2 harmless ways")
 TRUSTED = [
     "call layer: hand-written Lean models ALV/Model/C20Call.lean (Option-al parameters, defaults from the documented table Dflt.*, "
     "strategy names / aliases / dictionary defaults); the table is tied to the source by translator harness/props/c20_sig.py "
@@ -115,7 +118,22 @@ TRUSTED = [
     "maverage_window_starts_full_of_zero, amdfCall_eq_spec, accumulate_z_memory)",
     "hand-written Lean models ALV/Model/C20.lean of lazy_analysis.{maverage.*,amdf,envelope.*,clip,zcross,unwrap} and "
     "lazy_itertools.accumulate.* (modelled, not verified: collections.deque, itertools.accumulate, the generator protocol, "
-    "Fraction/float arithmetic and Python's `%`)",
+    "Fraction/float arithmetic and Python's `%`); of these, clip, zcross, unwrap, accumulate.func, maverage.deque, amdf, envelope.abs "
+    "and envelope.squared are additionally REGENERATED from the source on every run and proved equal to the model (src_*_is_model); "
+    "maverage.recursive / .fir, accumulate.z (ZFilter operator expressions), accumulate.accumulate (itertools) and the sqrt of "
+    "envelope.rms stay hand-written, tied by sampling only",
+    "body translator harness/props/c20_tr.py (ast on the source text, ~800 lines, trusted like the harness): assumes the semantics of its "
+    "Python subset - a generator reading ONE iterator over a finite input is the list of its yields; `for` over that iterator after "
+    "`next` / `break` continues with the remaining items; `if/else`, conditional expressions, `x = e`, `x += e` as in Lean lets; "
+    "`try: x = next(it) / except StopIteration: return` = match on the remaining list - and the vocabulary mapping abs -> absG, "
+    "`%` -> pymod fl (a - b*floor(a/b)), min(a, b, key=abs) -> minAbs (first wins ties), deque -> List (popleft = head + drop 1 with "
+    "head of an empty deque = 0, append = ++ [.], maxlen = initial length never exceeded), Stream(x) / @tostream / thub(x, n) -> x "
+    "(laziness is property C02), abs(stream) / stream ** 2 -> map, lowpass(cutoff)(s) -> frun b a 0 s for the coefficient lists (b, a) "
+    "of that filter (design: C13; loop: C04), maverage(size)(s, zero=z) -> the regenerated maverage.deque (first registered = default "
+    "strategy, table Gen.C20Defaults.strategies), `(1 - z ** -lag).linearize()` called with zero=z -> frun (lagNum lag) [] z, "
+    "`a <= b` -> not (b < a) (total order), 1. / 0. -> 1 / 0, `1. / size` -> 1 / (size : alpha), `is None` on a parameter -> match on "
+    "Option; everything else inside a translated function is a TranslationError (= broken obligation).  A wrong mapping would show in "
+    "the differential run, which executes the model the regenerated definitions are proved equal to",
     "the ZFilter-built strategies are modelled by a self-contained direct-form loop (frun); that LinearFilter.__call__ "
     "generates this loop for every coefficient shape is property C04",
     "envelope: the low-pass coefficients are read from the impl's own lowpass(cutoff) object (its design is property C13)",
@@ -148,11 +166,18 @@ MANIFEST = {
              "clipCall_defaults, zcrossCall_default_spec, maverageCall_eq_spec, accumulateCall_eq_spec, amdfCall_eq_spec, "
              "envelopeCall_default), None -> TypeError where Python rejects it, insensitivity theorems (max_delta below step/2, limits "
              "beyond all samples); the table equals the signatures read from the source with ast (decide theorem over a generated file); "
-             "the tie runs every tool x call shape x spelling x input kind x strategy name."),
+             "the tie runs every tool x call shape x spelling x input kind x strategy name.  Source tie: the bodies of clip, zcross, "
+             "unwrap, accumulate.func, maverage.deque, amdf, envelope.abs/.squared are translated from the source text (ast) into Lean "
+             "definitions ALV.Gen.C20.* before every build and proved EQUAL to the model functions (src_clip_is_model, src_zcross_is_model, "
+             "src_unwrap_is_model, src_accumulate_func_is_model, src_maverage_deque_is_model, src_amdf_is_model, src_envelope_is_model; "
+             "src_tools_eq_spec restates the closed forms about the regenerated definitions)."),
     "note": ("Trusted: Lean kernel, propext/Classical.choice/Quot.sound, the Python harness; the filter-built strategies are "
              "modelled by a self-contained direct-form loop (the generated LinearFilter loop is property C04); the low-pass design "
              "used by envelope is property C13; sqrt of envelope.rms is compared in floats."),
-    "technique": "Lean 4 machine-checked proof over an executable model + differential correspondence",
+    "technique": ("Lean 4 machine-checked proof over an executable model; the model functions of clip, zcross, unwrap, "
+                  "accumulate.func, maverage.deque, amdf, envelope.abs/.squared are REGENERATED from the Python bodies on every run "
+                  "(translator harness/props/c20_tr.py -> lean/ALV/Gen/C20Src.lean, theorems src_*_is_model) and the signatures / "
+                  "defaults by harness/props/c20_sig.py; + differential correspondence for everything"),
     "design_ref": "DESIGN.md section 7, C20",
 }
 TOL = F(1, 10 ** 9)
@@ -1299,9 +1324,14 @@ def classify(c, io, drv):
 # the call layer: translator of the signatures + structural checks
 # ----------------------------------------------------------------------------------------------
 def regenerate(eng=None):
-    """rewrite lean/ALV/Gen/C20Defaults.lean from the source signatures (ast) of the repo under test; the theorem
-    ALV.Props.C20.source_signatures_are_documented compares it with the documented table of the model"""
-    return sig.regenerate(eng)
+    """two translators, both from the source TEXT of the repo under test (ast, nothing imported):
+    * signatures / defaults / strategy registrations -> lean/ALV/Gen/C20Defaults.lean (theorem source_signatures_are_documented),
+    * the BODIES of clip, zcross, unwrap, accumulate.func, maverage.deque, amdf, envelope.abs / .squared ->
+      lean/ALV/Gen/C20Src.lean (theorems src_*_is_model: the regenerated definitions are the model functions).
+    A failure of either is a broken obligation; the last committed Gen file is put back so that the build still runs."""
+    a = sig.regenerate(eng)
+    b = tr.regenerate(eng)
+    return "C20Defaults %s; C20Src %s" % (a, b)
 
 
 def _documented():
@@ -1314,6 +1344,31 @@ def extra_checks(eng):
     (ast) == the signatures of the live objects (inspect); strategy names / aliases / dictionary defaults"""
     import inspect
     import audiolazy as al
+    # (0) the translator of the function bodies
+    translated = {"translator": "harness/props/c20_tr.py -> lean/ALV/Gen/C20Src.lean (shallow: Lean definitions in the vocabulary of "
+                                "ALV/Model/C20.lean)",
+                  "under_translator": [{"function": f["key"], "file": "audiolazy/" + f["file"], "generated": "ALV.Gen.C20." + f["lean"],
+                                        "model": f["model"],
+                                        "theorem": "ALV.Props.C20." + ("src_envelope_is_model" if f["key"].startswith("envelope")
+                                                                        else "src_%s_is_model" % f["lean"])} for f in tr.FUNCS],
+                  "hand_written_only": [{"function": k, "reason": v} for k, v in tr.NOT_TRANSLATED.items()]}
+    if eng is not None:
+        eng.extra["translated"] = translated
+    try:
+        base, res = tr.selftest()
+        bad = [(n, d) for n, ok, d in res if not ok]
+        translated["selftest"] = [{"edit": n, "ok": ok, "result": d} for n, ok, d in res]
+        yield ("translator-selftest: every deliberately edited copy of the source text (%d semantic edits, %d harmless rewrites) is "
+               "seen / normalised by the body translator" % (sum(1 for e in tr.EDITS if e[4]), sum(1 for e in tr.EDITS if not e[4])),
+               not bad, "; ".join("%s: %s" % b for b in bad)[:600])
+        good = tr.committed_text()
+        yield ("translator-selftest: the unchanged source reproduces the committed lean/ALV/Gen/C20Src.lean byte for byte",
+               good is not None and base == good,
+               "" if good is not None and base == good else
+               ("no committed file" if good is None else "regenerated text differs from HEAD:lean/ALV/Gen/C20Src.lean (%d vs %d bytes)"
+                % (len(base), len(good))))
+    except Exception as ex:   # noqa
+        yield ("translator-selftest: body translator runs on the source of the repo under test", False, "%s: %s" % (type(ex).__name__, ex))
     doc = _documented()
     pi = F(math.pi)
     ok = dec(doc["pi"]) == pi and dec(doc["pi_float"]) == pi
